@@ -130,6 +130,7 @@ package syntax
 //@ func syntax.unquoteBytes property C08 C09 C16
 //@   mode bytes
 //@   nopanic
+//@   opt replay mrounquote
 //@   uses utf8 mrostr
 //@   requires matches(tokStringRule, value)
 //@   let A = old(arr(value0))
@@ -391,6 +392,7 @@ package syntax
 //@   mode bytes
 //@   uses mrostr utf8
 //@   monitor mrostr sink w expects s
+//@   opt replay mroquote
 //@   requires validUTF8(s)
 //@   ensures @accepts mon(w, q) == mrostr_DONE
 //@   ensures @exact mon(w, k) == len(s)
